@@ -545,7 +545,395 @@ func (c *Ctx) funcxRun() map[string]*simpleVerdict {
 	}
 	c.funcxInapplicable(names, note)
 	c.funcxExtremes(note)
+	c.funcxResultTypes(names, note)
+	c.funcxHistories(names, note)
 	return res
+}
+
+// ---- the table after entries were removed and added ------------------------------------------------------------
+//
+// "Every default function, looked up by name in any letter case … returns the value its name denotes": a host
+// removes functions it does not want (the random source, the clock) and adds its own; the functions that remain
+// are still the default functions. Histories of RemoveByName (first, inner, last-but-one, last, unknown name; any
+// letter case), Remove(index) and Add on the default collection and on a plain collection of four functions are
+// followed on an ordered list of names; after every step Length/Get list the model, every name of the model in
+// three letter cases is located at its position and resolves to the function of that name, removed names are
+// not found, and a sample of the remaining default functions is called and compared with its meaning.
+func (c *Ctx) funcxHistories(names []string, note func(k, bad, undec string)) {
+	type step struct {
+		op   string // "removeByName", "remove", "add"
+		name string
+		idx  int // remove: position (negative: from the end)
+	}
+	histories := [][]step{
+		{{op: "removeByName", name: "Rnd"}},
+		{{op: "removeByName", name: "random"}, {op: "removeByName", name: "NOW"}, {op: "removeByName", name: "Ticks"}},
+		{{op: "removeByName", name: "@first"}, {op: "removeByName", name: "@first"}},
+		{{op: "removeByName", name: "@last"}, {op: "removeByName", name: "@last"}},
+		{{op: "removeByName", name: "@lastButOne"}},
+		{{op: "removeByName", name: "NoSuchFunction"}, {op: "removeByName", name: "abs"}},
+		{{op: "remove", idx: 0}, {op: "remove", idx: 5}, {op: "remove", idx: -1}},
+		{{op: "remove", idx: -2}, {op: "removeByName", name: "MIN"}},
+		{{op: "add", name: "Twice"}, {op: "removeByName", name: "Sum"}, {op: "add", name: "Thrice"}, {op: "removeByName", name: "twice"}},
+		{{op: "removeByName", name: "Sqrt"}, {op: "add", name: "Sqrt"}, {op: "remove", idx: 1}, {op: "removeByName", name: "Pi"}},
+	}
+	// the meaning of some default functions on constants (statement: Abs, Sqrt, Floor, Max, Sum, Contains, If, Choose, Empty)
+	type probe struct {
+		args          []evxVal
+		tag, expr, as string
+	}
+	probes := map[string]probe{
+		"Abs":      {[]evxVal{{"Integer", int64(-5)}}, "Integer", "5", "Abs(-5)"},
+		"Sqrt":     {[]evxVal{{"Double", float64(16)}}, "Double", "4", "Sqrt(16.0)"},
+		"Sqr":      {[]evxVal{{"Double", float64(16)}}, "Double", "4", "Sqr(16.0)"},
+		"Floor":    {[]evxVal{{"Double", float64(2.5)}}, "Double", "2", "Floor(2.5)"},
+		"Ceil":     {[]evxVal{{"Double", float64(2.5)}}, "Double", "3", "Ceil(2.5)"},
+		"Round":    {[]evxVal{{"Double", float64(2.25)}}, "Double", "2", "Round(2.25)"},
+		"Acos":     {[]evxVal{{"Double", float64(1)}}, "Double", "0", "Acos(1.0)"},
+		"Exp":      {[]evxVal{{"Double", float64(0)}}, "Double", "1", "Exp(0.0)"},
+		"Max":      {[]evxVal{{"Integer", int64(1)}, {"Integer", int64(2)}}, "Integer", "2", "Max(1,2)"},
+		"Min":      {[]evxVal{{"Integer", int64(1)}, {"Integer", int64(2)}}, "Integer", "1", "Min(1,2)"},
+		"Sum":      {[]evxVal{{"Integer", int64(1)}, {"Integer", int64(2)}}, "Integer", "3", "Sum(1,2)"},
+		"Contains": {[]evxVal{{"String", lit("abc")}, {"String", lit("b")}}, "Boolean", "true", `Contains("abc","b")`},
+		"If":       {[]evxVal{{"Boolean", false}, {"Integer", int64(10)}, {"Integer", int64(20)}}, "Integer", "20", "If(false,10,20)"},
+		"Choose":   {[]evxVal{{"Integer", int64(2)}, {"Integer", int64(10)}, {"Integer", int64(20)}}, "Integer", "20", "Choose(2,10,20)"},
+		"Empty":    {[]evxVal{{"Null", nil}}, "Boolean", "true", "Empty(null)"},
+		"Null":     {nil, "Null", "nil", "Null()"},
+	}
+	newFn := c.MustFunc(pkgFunctions, "", "NewDelegatedFunction")
+	plainCtor := c.MustFunc(pkgFunctions, "", "NewFunctionCollection")
+	var wg sync.WaitGroup
+	sem := make(chan bool, 4)
+	for _, kind := range []string{"default collection", "plain collection"} {
+		for hi, hist := range histories {
+			kind, hi, hist := kind, hi, hist
+			wg.Add(1)
+			go func() {
+				defer wg.Done()
+				sem <- true
+				defer func() { <-sem }()
+				h := c.newFxHarnessFor(managers[hi%len(managers)])
+				if h.fault != "" {
+					note("histories", "", h.fault)
+					return
+				}
+				add := func(name string) string {
+					df, out := h.m.Call(newFn, name, &mSym{name: "calculator-of-" + name, nonNil: true})
+					if out.kind != "ok" {
+						return "NewDelegatedFunction: " + out.why
+					}
+					if _, out := callM(c, h.m, h.collT.t, "Add", h.coll, mIface{t: resultType(newFn), v: df}); out.kind != "ok" {
+						return "Add(" + name + "): " + out.kind + " " + out.why
+					}
+					return ""
+				}
+				var model []string
+				if kind == "plain collection" {
+					coll, out := h.m.Call(plainCtor)
+					if out.kind != "ok" {
+						note("histories", "", "NewFunctionCollection: "+out.why)
+						return
+					}
+					h.coll, h.collT = coll, mIface{t: resultType(plainCtor), v: coll}
+					// the names the history speaks of, and others around them
+					for _, n := range []string{"Abs", "Rnd", "Random", "Now", "Min", "Sqrt", "Ticks", "Pi", "Sum"} {
+						if why := add(n); why != "" {
+							note("histories", "", why)
+							return
+						}
+						model = append(model, n)
+					}
+				} else {
+					var why string
+					if model, _, why = collectionEntries(c, h.m, h.collT); why != "" {
+						note("histories", "", why)
+						return
+					}
+				}
+				told := "on the " + kind + " " + fmt.Sprintf("%q", model) + ": "
+				if kind == "default collection" {
+					told = "on the default collection: "
+				}
+				find := func(list []string, name string) int {
+					for i, e := range list {
+						if strings.EqualFold(e, name) {
+							return i
+						}
+					}
+					return -1
+				}
+				var removed []string
+				added := map[string]bool{} // the host's own functions: their calculators are not the default ones
+				for si, st := range hist {
+					name := st.name
+					switch name {
+					case "@first":
+						name = model[0]
+					case "@last":
+						name = model[len(model)-1]
+					case "@lastButOne":
+						name = model[len(model)-2]
+					}
+					var out mOutcome
+					switch st.op {
+					case "removeByName":
+						told += fmt.Sprintf("RemoveByName(%q); ", name)
+						_, out = callM(c, h.m, h.collT.t, "RemoveByName", h.coll, name)
+						if i := find(model, name); i >= 0 {
+							removed = append(removed, model[i])
+							model = append(append([]string{}, model[:i]...), model[i+1:]...)
+						}
+					case "remove":
+						i := st.idx
+						if i < 0 {
+							i += len(model)
+						}
+						told += fmt.Sprintf("Remove(%d); ", i)
+						_, out = callM(c, h.m, h.collT.t, "Remove", h.coll, int64(i))
+						removed = append(removed, model[i])
+						model = append(append([]string{}, model[:i]...), model[i+1:]...)
+					case "add":
+						told += fmt.Sprintf("Add(a function named %q); ", name)
+						if why := add(name); why != "" {
+							out = mOutcome{kind: "opaque", why: why}
+						} else {
+							out = mOutcome{kind: "ok"}
+						}
+						model = append(model, name)
+						added[name] = true
+					}
+					if si == 0 && hi == 0 {
+						noteSample("FUNC.model/histories", told)
+					}
+					if out.kind == "panic" {
+						note("histories", told+"the last call panics: "+out.why, "")
+						return
+					}
+					if out.kind != "ok" {
+						note("histories", "", told+out.why)
+						return
+					}
+					// the list
+					listed, _, why := collectionEntries(c, h.m, h.collT)
+					if why != "" {
+						note("histories", told+"listing the collection through Length/Get fails: "+why, "")
+						return
+					}
+					if fmt.Sprint(listed) != fmt.Sprint(model) {
+						note("histories", fmt.Sprintf("%sLength/Get list %q; an ordered list holds %q", told, listed, model), "")
+						return
+					}
+					// every entry, in three letter cases, is located where it is and resolves to itself
+					for _, n := range model {
+						for _, spelled := range []string{n, strings.ToLower(n), strings.ToUpper(n)} {
+							want := find(model, n)
+							iv, out := callM(c, h.m, h.collT.t, "FindIndexByName", h.coll, spelled)
+							if out.kind == "panic" {
+								note("histories", fmt.Sprintf("%sFindIndexByName(%q) panics: %s", told, spelled, out.why), "")
+								continue
+							}
+							if got, ok := iv.(int64); out.kind != "ok" || !ok {
+								note("histories", "", told+"FindIndexByName("+spelled+"): "+out.why)
+							} else if int(got) != want {
+								note("histories", fmt.Sprintf("%sFindIndexByName(%q) answers %d; the list %q holds the name at position %d", told, spelled, got, model, want), "")
+							} else {
+								note("histories", "", "")
+							}
+							f, out := callM(c, h.m, h.collT.t, "FindByName", h.coll, spelled)
+							if out.kind == "panic" {
+								note("histories", fmt.Sprintf("%sFindByName(%q) panics: %s", told, spelled, out.why), "")
+								continue
+							}
+							fi, ok := f.(mIface)
+							if out.kind == "ok" && !ok {
+								note("histories", fmt.Sprintf("%sFindByName(%q) finds nothing; the function is still in the collection", told, spelled), "")
+								continue
+							}
+							if out.kind != "ok" {
+								note("histories", "", told+"FindByName("+spelled+"): "+out.why)
+								continue
+							}
+							nm, out := callM(c, h.m, fi.t, "Name", fi.v)
+							if s, ok := nm.(string); out.kind == "ok" && ok && !strings.EqualFold(s, n) {
+								note("histories", fmt.Sprintf("%sFindByName(%q) answers the function %s: every remaining function is looked up by its own name", told, spelled, s), "")
+							} else {
+								note("histories", "", "")
+							}
+						}
+					}
+					// what was removed is gone (unless another entry of that name remains)
+					for _, r := range removed {
+						if find(model, r) >= 0 {
+							continue
+						}
+						f, out := callM(c, h.m, h.collT.t, "FindByName", h.coll, r)
+						if _, isNil := f.(mNilT); out.kind == "ok" && !isNil {
+							note("histories", fmt.Sprintf("%sFindByName(%q) still finds a function; it was removed", told, r), "")
+						} else if out.kind == "panic" {
+							note("histories", fmt.Sprintf("%sFindByName(%q) panics: %s", told, r, out.why), "")
+						} else {
+							note("histories", "", "")
+						}
+					}
+					// the remaining default functions compute what their names denote
+					if kind != "default collection" {
+						continue
+					}
+					for _, n := range model {
+						p, ok := probes[n]
+						if !ok || added[n] {
+							continue
+						}
+						for _, oc := range h.calc(strings.ToLower(n), false, func() []mv {
+							var ps []mv
+							for _, a := range p.args {
+								ps = append(ps, h.variant(a.typ, a.payload))
+							}
+							return ps
+						}) {
+							switch {
+							case oc.kind == "opaque":
+								note("histories", "", told+p.as+": "+oc.why)
+							case oc.kind == "panic":
+								note("histories", told+p.as+" panics: "+oc.why, "")
+							case oc.kind != "value":
+								note("histories", fmt.Sprintf("%s%s yields %s %s; the name denotes %s %s", told, p.as, oc.kind, oc.code, p.tag, p.expr), "")
+							case oc.tag != p.tag || oc.expr != p.expr:
+								note("histories", fmt.Sprintf("%s%s returns %s %s; the name denotes %s %s", told, p.as, oc.tag, oc.expr, p.tag, p.expr), "")
+							default:
+								note("histories", "", "")
+							}
+						}
+					}
+				}
+			}()
+		}
+	}
+	wg.Wait()
+}
+
+// ---- one result type per function, whatever the type of the argument ---------------------------------------
+//
+// The statement: every default function "returns the value its name denotes with a fixed result type". For
+// every function of one argument, the argument runs over constants of every numeric type (whole and
+// fractional, either sign), a Boolean and a TimeSpan, under both managers, called directly and through an
+// expression ‹Name ( x )› of a calculator. Where the statement names the type (the host functions work "per
+// IEEE double arithmetic": a Double; Trunc: the whole part, a Long - the table of funcChainOracle), every
+// result has that type and, for the rounding functions, the value of the host function on the argument as a
+// double; elsewhere the results have one type over all argument types. Abs is "type-preserving" by the
+// statement and keeps the type of its argument.
+func (c *Ctx) funcxResultTypes(names []string, note func(k, bad, undec string)) {
+	args := []evxVal{{"Integer", int64(5)}, {"Integer", int64(-3)}, {"Integer", int64(0)}, {"Long", int64(7)}, {"Long", int64(-9000000000)},
+		{"Float", float64(1.5)}, {"Float", float64(-2)}, {"Double", float64(2.5)}, {"Double", float64(-0.25)}, {"Double", float64(4)}, {"Boolean", true}, {"TimeSpan", int64(3000000)}}
+	rounding := map[string]func(float64) float64{"Ceil": math.Ceil, "Ceiling": math.Ceil, "Floor": math.Floor, "Round": math.Round, "Trunc": math.Trunc, "Truncate": math.Trunc}
+	num := func(a evxVal) float64 {
+		switch p := a.payload.(type) {
+		case int64:
+			return float64(p)
+		case float64:
+			return p
+		}
+		return math.NaN()
+	}
+	var wg sync.WaitGroup
+	for _, manager := range managers {
+		for _, through := range []string{"Calculate", "expression"} {
+			manager, through := manager, through
+			wg.Add(1)
+			go func() {
+				defer wg.Done()
+				h := c.newFxHarnessFor(manager)
+				if h.fault != "" {
+					note("result-type", "", h.fault)
+					return
+				}
+				var k *evxCalc
+				if through == "expression" {
+					var why string
+					if k, why = h.newEvxCalc(manager); k == nil {
+						note("result-type", "", why)
+						return
+					}
+				}
+				for _, n := range names {
+					if len(funcArityOracle[n]) == 0 || funcArityOracle[n][0] > 1 || n == "Array" && through == "expression" {
+						continue
+					}
+					hasOne := false
+					for _, cnt := range funcArityOracle[n] {
+						hasOne = hasOne || cnt == 1
+					}
+					if !hasOne {
+						continue
+					}
+					wantTag := ""
+					if spec, ok := funcChainOracle[n]; ok && strings.HasPrefix(spec, "VariantFrom") {
+						wantTag = strings.TrimPrefix(spec[:strings.IndexByte(spec, '(')], "VariantFrom")
+					}
+					if k != nil {
+						if out := k.setTokens(n + " ( x )"); out.kind != "ok" {
+							note("result-type", "", "‹"+n+" ( x )›: "+out.why)
+							continue
+						}
+					}
+					firstTag, firstWhere := "", ""
+					for _, a := range args {
+						where := fmt.Sprintf("%s(%s) [%s, %s]", n, a, manager, through)
+						if a.typ == "Integer" && a.payload == int64(5) {
+							noteSample("FUNC.model/result-type", where)
+						}
+						tag, expr := "", ""
+						if k != nil {
+							vars, _ := h.evxVariables([]string{"x"}, map[string]evxVal{"x": a})
+							got, _ := k.evaluate(vars)
+							if got == "" || strings.HasPrefix(got, "error ") || got == "Null" {
+								note("result-type", "", "")
+								continue
+							}
+							if i := strings.IndexByte(got, ' '); i > 0 && !strings.HasPrefix(got, "panic") && !strings.HasPrefix(got, "neither") {
+								tag, expr = got[:i], got[i+1:]
+							} else {
+								note("result-type", fmt.Sprintf("%s: %s", where, got), "")
+								continue
+							}
+						} else {
+							outs := h.calc(n, false, func() []mv { return []mv{h.variant(a.typ, a.payload)} })
+							if len(outs) != 1 || outs[0].kind != "value" {
+								note("result-type", "", "") // an error, or a decision on a value outside the model: no result, no type
+								continue
+							}
+							tag, expr = outs[0].tag, outs[0].expr
+						}
+						bad := ""
+						switch {
+						case n == "Abs":
+							if tag != a.typ && a.typ != "Boolean" && a.typ != "TimeSpan" {
+								bad = fmt.Sprintf("%s returns %s %s; Abs keeps the type of a numeric argument", where, tag, expr)
+							}
+						case wantTag != "" && tag != wantTag:
+							bad = fmt.Sprintf("%s returns %s %s; the result type of %s is %s for every argument (\"a fixed result type\"; here it follows the type of the argument)", where, tag, expr, n, wantTag)
+						case wantTag == "" && firstTag != "" && tag != firstTag:
+							bad = fmt.Sprintf("%s returns %s %s but %s returns a %s: the result type of a function is fixed, it does not follow the type of the argument", where, tag, expr, firstWhere, firstTag)
+						}
+						if f := rounding[n]; bad == "" && f != nil && !math.IsNaN(num(a)) {
+							want := fmt.Sprint(f(num(a)))
+							if wantTag == "Long" {
+								want = fmt.Sprint(int64(f(num(a))))
+							}
+							if expr != want {
+								bad = fmt.Sprintf("%s returns %s %s; the name denotes %s %s", where, tag, expr, wantTag, want)
+							}
+						}
+						if firstTag == "" {
+							firstTag, firstWhere = tag, where
+						}
+						note("result-type", bad, "")
+					}
+				}
+			}()
+		}
+	}
+	wg.Wait()
 }
 
 // ---- arguments of every type in every position ---------------------------------------------------------
@@ -895,12 +1283,12 @@ func (c *Ctx) funcxExtremes(note func(k, bad, undec string)) {
 
 func init() {
 	register(&Rule{ID: "FUNC.model", Floor: 5,
-		Doc: "the default function table evaluated abstractly (NewDefaultFunctionCollection, FindByName in three letter cases, Calculate with the type-unsafe operations): the 37 names and nothing else; per function and argument count 0..9 a result exactly for the statement's counts, never nil-without-error or both; host functions and constants as symbolic expressions of the converted argument; Min/Max/Sum/If/Choose/Contains/Abs/Empty/Null/Array/TimeSpan/Date on constants against their meaning; every function with an argument of every variant type in every position under both managers (result xor error; what the manager refuses to convert is an error); Min and Max as mirror images over lists with Null arguments in every position",
+		Doc: "the default function table evaluated abstractly (NewDefaultFunctionCollection, FindByName in three letter cases, Calculate with the type-unsafe operations): the 37 names and nothing else; per function and argument count 0..9 a result exactly for the statement's counts, never nil-without-error or both; host functions and constants as symbolic expressions of the converted argument; Min/Max/Sum/If/Choose/Contains/Abs/Empty/Null/Array/TimeSpan/Date on constants against their meaning; every function with an argument of every variant type in every position under both managers (result xor error; what the manager refuses to convert is an error); Min and Max as mirror images over lists with Null arguments in every position; one result type per function over arguments of every numeric type, called directly and through expressions; histories of RemoveByName / Remove / Add on the default and a plain collection followed on an ordered list of names, every remaining function located in three letter cases and called",
 		Run: func(c *Ctx) []*Obligation {
 			o := newObl("FUNC.model")
 			res := c.funcxRun()
 			pos := c.Pos(c.MustFunc(pkgFunctions, "", "NewDefaultFunctionCollection").Pos())
-			for _, k := range []string{"table", "arity", "meaning", "semantics", "arguments-unchanged", "table-unchanged", "inapplicable-arguments", "extremes"} {
+			for _, k := range []string{"table", "arity", "meaning", "semantics", "arguments-unchanged", "table-unchanged", "inapplicable-arguments", "extremes", "result-type", "histories"} {
 				v := res[k]
 				if v == nil {
 					v = &simpleVerdict{}
